@@ -232,6 +232,13 @@ def retime(steps):
     return out
 
 
+SWEEP = 12  # quanta looked at after the last request of a canonical candidate (> longest lifetime + grace)
+
+
+def adv_step(t):
+    return {"k": "adv", "t": t, "src": 0, "ep": "", "d": "", "loc": 0, "lt": 0, "base": 0, "x": 0, "links": 0, "var": "", "n": 1, "cls": 0}
+
+
 def _ops_subsets(n, kmax):
     from itertools import combinations
 
@@ -240,67 +247,67 @@ def _ops_subsets(n, kmax):
             yield c
 
 
+def compact_clock(h, t_fail):
+    """Keep only the clock steps that place a request at its instant (the last
+    one before each request) and one step to the instant of the failing
+    lookup."""
+    out, pending, now = [], None, 0
+    for s in h["steps"]:
+        if s["k"] == "adv":
+            pending = s
+            continue
+        if pending is not None:
+            out.append(pending)
+            now = pending["t"]
+            pending = None
+        out.append(s)
+    if t_fail > now:
+        out.append(adv_step(t_fail))
+    return {"steps": out}
+
+
 def minimise_all(wd, pool, items, kmax=3):
-    """items: list of (history, clause).  Shrinks every history to a small one
-    that still violates its clause *on the real code* (every candidate is
-    executed and judged by TLC; all candidates of one round go into one TLC
-    batch).  Round 1: all sub-histories with <= kmax requests (clock steps
-    kept); then clock steps are removed as long as the clause still fails."""
-    cur = [h for h, _ in items]
-    # round 1: fewest requests
+    """items: list of (history, clause, result, verdict).  Shrinks every history
+    to a small one that still violates its clause *on the real code* (every
+    candidate is executed and judged by TLC; all candidates of one round go
+    into one TLC batch).  Round 1: all sub-histories with <= kmax requests, on
+    the original clock and on a canonical clock; round 2: only the clock
+    steps that matter.  Returns [(history, result, verdict)]."""
+    nops = lambda hh: sum(1 for s in hh["steps"] if s["k"] != "adv")
+    cur = [(h, r, v) for h, _, r, v in items]
     cands, owner = [], []
-    for gi, (h, clause) in enumerate(items):
+    for gi, (h, clause, _, _) in enumerate(items):
         opi = [i for i, s in enumerate(h["steps"]) if s["k"] != "adv"]
         for sub in _ops_subsets(len(opi), min(kmax, len(opi) - 1)):
             keep = {opi[j] for j in sub}
             steps = retime([s for i, s in enumerate(h["steps"]) if s["k"] == "adv" or i in keep])
             cands.append({"steps": steps})
             owner.append(gi)
+            # the same requests on a canonical clock: one quantum apart, then a sweep over every instant
+            steps, t = [], 0
+            for j in sub:
+                if steps:
+                    t += 1
+                    steps.append(adv_step(t))
+                steps.append(h["steps"][opi[j]])
+            for _ in range(SWEEP):
+                t += 1
+                steps.append(adv_step(t))
+            cands.append({"steps": steps})
+            owner.append(gi)
     if cands:
         res = run_all(cands, pool)
         verdicts, _ = validate(wd, [r["events"] for r in res])
-        for c, gi, v in zip(cands, owner, verdicts):
-            if items[gi][1] in v["bad"]:
-                nops = lambda hh: sum(1 for s in hh["steps"] if s["k"] != "adv")
-                if nops(c) < nops(cur[gi]):
-                    cur[gi] = c
-    # rounds 2..: drop clock steps (and trailing requests) one at a time, then jointly
-    for _ in range(4):
-        cands, owner, which = [], [], []
-        for gi, h in enumerate(cur):
-            for i, s in enumerate(h["steps"]):
-                steps = retime(h["steps"][:i] + h["steps"][i + 1 :])
-                if steps:
-                    cands.append({"steps": steps})
-                    owner.append(gi)
-                    which.append(i)
-        if not cands:
-            break
-        res = run_all(cands, pool)
-        verdicts, _ = validate(wd, [r["events"] for r in res])
-        removable = {}
-        for c, gi, i, v in zip(cands, owner, which, verdicts):
-            if items[gi][1] in v["bad"]:
-                removable.setdefault(gi, []).append(i)
-        if not removable:
-            break
-        joint, jowner = [], []
-        for gi, idx in removable.items():
-            steps = retime([s for i, s in enumerate(cur[gi]["steps"]) if i not in idx])
-            if steps:
-                joint.append({"steps": steps})
-                jowner.append(gi)
-        res = run_all(joint, pool)
-        verdicts, _ = validate(wd, [r["events"] for r in res]) if joint else ([], None)
-        done = set()
-        for c, gi, v in zip(joint, jowner, verdicts):
-            if items[gi][1] in v["bad"]:
-                cur[gi] = c
-                done.add(gi)
-        for gi, idx in removable.items():
-            if gi not in done:  # remove just one step this round
-                i = idx[-1]
-                cur[gi] = {"steps": retime(cur[gi]["steps"][:i] + cur[gi]["steps"][i + 1 :])}
+        # candidates come in order of increasing number of requests, original clock first
+        for c, gi, r, v in zip(cands, owner, res, verdicts):
+            if items[gi][1] in v["bad"] and nops(c) < nops(cur[gi][0]):
+                cur[gi] = (c, r, v)
+    comp = [compact_clock(h, r["events"][v["firstBad"] - 1]["t"]) for h, r, v in cur]
+    res = run_all(comp, pool)
+    verdicts, _ = validate(wd, [r["events"] for r in res])
+    for gi, (c, r, v) in enumerate(zip(comp, res, verdicts)):
+        if items[gi][1] in v["bad"]:
+            cur[gi] = (c, r, v)
     return cur
 
 
@@ -441,11 +448,13 @@ def work(rep, args):
         items = []
         for g in order:
             idxs = sorted(groups[g], key=lambda i: (len(all_hists[i]["steps"]), i))
-            items.append((all_hists[idxs[0]], g[0]))
-        smalls = minimise_all(wd, pool, items) if items else []
-        finals = run_all(smalls, pool)
-        fverd, _ = validate(wd, [r["events"] for r in finals]) if smalls else ([], None)
+            i0 = idxs[0]
+            items.append((all_hists[i0], g[0], results[i0], verdicts[i0]))
+        shrunk = minimise_all(wd, pool, items) if items else []
         _dbg("minimised %d groups" % len(items))
+        smalls = [x[0] for x in shrunk]
+        finals = [x[1] for x in shrunk]
+        fverd = [x[2] for x in shrunk]
         for g, small, r1, v1 in zip(order, smalls, finals, fverd):
             clause = g[0]
             if clause not in v1["bad"]:
